@@ -15,4 +15,4 @@ def install(world):
                 world.modular.add(c.fq)
 
 
-MODULES = ["tracker", "dest", "source", "routing", "mib"]
+MODULES = ["tracker", "dest", "source", "routing", "mib", "filestore"]
